@@ -15,6 +15,8 @@
     c12.pb    <hex>                                   | ok | err            (library: echoed, only "no panic" is judged)
     c12.conc  <workers> <iters> <k> <inner case> ;; … <inner case>      (one shared decoder, concurrent callers)
                                                       | <inner result> ;; … | `unstable <n> …` for a document whose calls disagreed
+    c12.in    <max_event_size> <cut_off> <following> <inner cmd> <inner args… line>   (real Pipeline.In on buf[:len(line)])
+                                                      | ok <event, keys sorted> L <line after> A <following after> | refused L … A …
     c12.row   <one of the scanner cases above> E <expected field tokens>
                                                       | the inner case's result; P additionally requires
                                                         `ok <expected field tokens> B …` (fidelity on the implementation)
@@ -31,6 +33,7 @@ import FileD.Model.Dec.Syslog5424
 import FileD.Model.Dec.CSV
 import FileD.Model.Dec.JsonCut
 import FileD.Model.Dec.Json
+import FileD.Model.Dec.Input
 import FileD.Spec.C12
 namespace FileD.DrvC12
 open FileD Tok FileD.Dec
@@ -228,6 +231,103 @@ def handleBase (cmd : String) (args impl : List String) : Option (String × Stri
     pure (unwords impl, if impl.any (·.startsWith "panic") then "fail" else "ok")
   | _, _ => none
 
+mutual
+  /-- keys sorted (stably) at every level: the canonical print of an event -/
+  def sortRec : JTree → JTree
+    | .obj kvs => .obj (sortFields (sortRecKVs kvs))
+    | .arr xs => .arr (sortRecList xs)
+    | t => t
+  def sortRecList : List JTree → List JTree
+    | [] => []
+    | x :: xs => sortRec x :: sortRecList xs
+  def sortRecKVs : List (Bytes × JTree) → List (Bytes × JTree)
+    | [] => []
+    | (k, v) :: kvs => (k, sortRec v) :: sortRecKVs kvs
+end
+
+def lastTok : List String → Option String
+  | [] => none
+  | [x] => some x
+  | _ :: xs => lastTok xs
+
+def replaceLast (l : List String) (x : String) : List String := l.dropLast ++ [x]
+
+/-- the tokens after the first occurrence of `tag` -/
+def afterTok (tag : String) : List String → Option (List String)
+  | [] => none
+  | t :: ts => if t = tag then some ts else afterTok tag ts
+
+/-- `c12.in <max> <cutoff> <following> <inner cmd> <inner args… line>`: the real `Pipeline.In` on
+    `buf[:len(line)]` of the buffer `line ++ following`. Model: `checkInputBytes`, then the decoder
+    model on the effective bytes, the event `In` builds, the cut-off mark; result
+    `ok <event, keys sorted> L <line after> A <following after>` | `refused L … A …`.
+    P: no panic, the bytes after the line untouched, the line's length unchanged. -/
+def handleIn (args impl : List String) : Option (String × String) :=
+  match args with
+  | mx :: co :: fol :: icmd :: iargs => do
+    let max ← nat? mx
+    let cutOff ← bool? co
+    let following ← bytes? fol
+    let line ← (lastTok iargs).bind bytes?
+    let p :=
+      if impl.any (fun t => t.startsWith "panic" || t == "frame-violated" || t == "timeout") then "fail" else
+      match (afterTok "L" impl).bind List.head?, (afterTok "A" impl).bind List.head? with
+      | some l, some a =>
+        match Hex.dec? l, Hex.dec? a with
+        | some lb, some ab => if ab == following && lb.length == line.length then "ok" else "fail"
+        | _, _ => "bad-impl"
+      | _, _ => "bad-impl"
+    match Input.checkInputBytes ⟨max, cutOff⟩ line following with
+    | .error e => pure (panicTok e, p)
+    | .ok r =>
+      let lineAfter0 := r.buf.take line.length
+      let folAfter := r.buf.drop line.length
+      let refused (la : Bytes) := unwords ["refused", "L", hx la, "A", hx folAfter]
+      if !r.accepted then pure (refused lineAfter0, p) else
+      let eff := r.bytes
+      let withEff (effAfter : Bytes) : Bytes := effAfter ++ lineAfter0.drop effAfter.length
+      let finish (root : JTree) (effAfter : Bytes) : String :=
+        let root := match root with
+          | .obj kvs => if r.cutoff then JTree.obj (mapSet kvs (s "cut") (.bool true)) else root
+          | t => t
+        unwords ["ok", JTree.enc (sortRec root), "L", hx (withEff effAfter), "A", hx folAfter]
+      if icmd = "c12.raw" then
+        match GoSlice.sliceTo? eff ((eff.length : Int) - 1) with
+        | .error e => pure (panicTok e, p)
+        | .ok m => pure (finish (.obj [strField "message" m]) eff, p)
+      else if icmd = "c12.jsonl" then
+        match Json.decode eff with
+        | some t => pure (finish t eff, p)
+        | none => pure (refused lineAfter0, p)
+      else
+        let (m, _) ← handleBase icmd (replaceLast iargs (hx eff)) []
+        let mt := words m
+        match mt with
+        | [] => none
+        | h :: _ =>
+          if h.startsWith "panic" then pure (m, p) else
+          let effAfter := match (afterTok "B" mt).bind List.head? with
+            | some b => (Hex.dec? b).getD eff
+            | none => eff
+          if h = "err" then pure (refused (withEff effAfter), p) else
+          if icmd = "c12.cri" then
+            match mt with
+            | _ :: t :: st :: _ :: lg :: _ => do
+              let time ← bytes? t
+              let stream ← bytes? st
+              let log ← bytes? lg
+              pure (finish (.obj [strField "log" log, strField "time" time, strField "stream" stream]) effAfter, p)
+            | _ => none
+          else
+            match afterTok "J" mt with
+            | some jt =>
+              if jt.head? == some "err" then pure (refused (withEff effAfter), p) else
+              match JTree.parse? jt with
+              | some (t, _) => pure (finish t effAfter, p)
+              | none => none
+            | none => none
+  | _ => none
+
 /-- split at the first `E` token -/
 def splitE : List String → List String × List String
   | [] => ([], [])
@@ -294,6 +394,7 @@ def handle (cmd : String) (args impl : List String) : Option (String × String) 
       | none => none
     | [] => none
   else if cmd = "c12.conc" then handleConc args impl
+  else if cmd = "c12.in" then handleIn args impl
   else handleBase cmd args impl
 
 end FileD.DrvC12
